@@ -1,12 +1,13 @@
 #!/bin/bash
 # re-applies every seeded mutation in /verif/seeded to a scratch worktree of /repo (outside /repo and /verif),
 # runs the property's quick check against it and reports whether it is still detected; removes the worktree.
-cd /verif
+V=$(cd "$(dirname "$0")/.." && pwd)
+cd "$V"
 for d in seeded/*/; do
   ID=$(basename $d); P=${ID%%-*}
   W=/tmp/reseed_$ID
   git -C /repo worktree add -q --detach $W HEAD 2>/dev/null || { echo "$ID: worktree failed"; continue; }
-  if (cd $W && git apply /verif/$d/patch.diff 2>/dev/null); then
+  if (cd $W && git apply "$V"/$d/patch.diff 2>/dev/null); then
     L=$(VERIF_REPO=$W timeout 1500 ./check $P --tier quick 2>&1 | grep -E "VIOLATION|quick:" | head -2 | tr '\n' ' ')
     case "$L" in *VIOLATION*) echo "$ID: DETECTED  $L";; *) echo "$ID: MISSED    $L";; esac
   else
